@@ -59,7 +59,10 @@ def make(cfg, hf, **kw):
     if cfg.get("sizing"):
         conf, err = cfg["sizing"]
         return cls(confidence=conf, error_rate=err, hash_function=hf, **extra, **kw)
-    return cls(width=cfg["width"], depth=cfg["depth_"], hash_function=hf, **extra, **kw)
+    s = cls(width=cfg["width"], depth=cfg["depth_"], hash_function=hf, **extra, **kw)
+    if cfg.get("qt"):
+        s.query_type = cfg["qt"]
+    return s
 
 
 def observation(f, kind):
